@@ -21,6 +21,8 @@ MODELS: Dict[str, pathlib.Path] = {
     "diamond": VERIF / "models" / "c02_diamond_tighten.py",
     # list properties of every shape (required / optional x primitive, bytes, constrained primitive, enumeration, class)
     "shapes": VERIF / "models" / "c29_shapes.py",
+    # a chain of constrained primitives declared descendant first (the language admits any order of declarations)
+    "reversed": VERIF / "models" / "c12_reversed_primitives.py",
     # a concrete class given as an implementation-specific snippet: of interest to the traversal check (C29) only
     "traversal-only:impl_specific": VERIF / "models" / "c29_impl_specific.py",
     # nesting of operators (parentheses in the transpiled expression): of interest to C08 only ("verification-only:")
